@@ -126,10 +126,20 @@ Definition xts_mul2_spec (T : list N) : list N :=
 
 Definition pkcs7_pad (m : list N) : list N :=
   let p := 16 - length m mod 16 in m ++ repeat (N.of_nat p) p.
-(* removal as the library does it: only the last byte is inspected *)
+(* removal as aes_cbc_padding_decrypt does it: only the last byte is inspected *)
 Definition pkcs7_unpad (m : list N) : option (list N) :=
   let p := last m 0%N in
   if (p <? 1)%N || (16 <? p)%N then None else Some (firstn (length m - N.to_nat p) m).
+(* PKCS#7 proper (sm4_cbc_padding_decrypt since 75d04f0): the string must end in p bytes of value p *)
+Definition pkcs7_unpad_strict (m : list N) : option (list N) :=
+  let p := last m 0%N in
+  if (p <? 1)%N || (16 <? p)%N then None
+  else if length m <? N.to_nat p then None
+  else if negb (forallb (fun b => (b =? p)%N) (skipn (length m - N.to_nat p) m)) then None
+  else Some (firstn (length m - N.to_nat p) m).
+(* the loop  for (i = 16 - padding; i < 16; i++) if (block[i] != padding) return -1; *)
+Definition pad_bytes_ok (padding : N) (block : list N) : bool :=
+  forallb (fun b => (b =? padding)%N) (skipn (16 - N.to_nat padding) block).
 
 Section Modes.
   Variable E : list N -> list N.      (* sm4_encrypt with the encryption round keys *)
@@ -181,6 +191,21 @@ Section Modes.
     let '(_, o2) := cbc_encrypt_blocks 1 iv1 block in
     o1 ++ o2.
 
+  (* sm4_cbc_padding_decrypt: every padding byte is checked *)
+  Definition sm4_cbc_padding_decrypt (iv inp : list N) : option (list N) :=
+    let inlen := length inp in
+    if inlen =? 0 then None                                          (* returns 0 *)
+    else if negb (inlen mod 16 =? 0) || (inlen <? 16) then None      (* returns -1 *)
+    else
+      let '(iv1, o1) := if 16 <? inlen then cbc_decrypt_blocks (inlen / 16 - 1) iv inp else (iv, []) in
+      let '(_, block) := cbc_decrypt_blocks 1 iv1 (skipn (inlen - 16) inp) in
+      let padding := nth 15 block 0%N in
+      if (padding <? 1)%N || (16 <? padding)%N then None
+      else if negb (pad_bytes_ok padding block) then None
+      else Some (o1 ++ firstn (16 - N.to_nat padding) block).
+
+  (* the last-byte-only rule: sm4_cbc_padding_decrypt before 75d04f0, and the shape shared with
+     aes_cbc_padding_decrypt (AesModes below), which still has it *)
   Definition cbc_padding_decrypt (iv inp : list N) : option (list N) :=
     let inlen := length inp in
     if inlen =? 0 then None                                          (* returns 0 *)
@@ -200,7 +225,7 @@ Section Modes.
     if 16 <=? length (bbuf c) then None else Some (cbc_padding_encrypt (bst c) (bbuf c)).
   Definition cbc_decrypt_update := buf_update 16 true cbc_dec_crypt.
   Definition cbc_decrypt_finish (c : bctx (list N)) : option (list N) :=
-    if negb (length (bbuf c) =? 16) then None else cbc_padding_decrypt (bst c) (bbuf c).
+    if negb (length (bbuf c) =? 16) then None else sm4_cbc_padding_decrypt (bst c) (bbuf c).
 
   (* Spec *)
   Fixpoint cbc_enc_chain (iv : list N) (ps : list (list N)) : list (list N) :=
@@ -219,6 +244,9 @@ Section Modes.
   Definition cbc_pad_dec_spec (iv c : list N) : option (list N) :=
     if (length c =? 0) || negb (length c mod 16 =? 0) then None
     else pkcs7_unpad (cbc_dec_spec iv c).
+  Definition cbc_pad_dec_spec_strict (iv c : list N) : option (list N) :=
+    if (length c =? 0) || negb (length c mod 16 =? 0) then None
+    else pkcs7_unpad_strict (cbc_dec_spec iv c).
 
   (* ------------------------------------------------------------------ CTR *)
   (* sm4_ctr_encrypt_blocks, table-driven build: the counter is held in two 64-bit words *)
